@@ -55,12 +55,18 @@ func c13ParsedHelloImmutable(c *Ctx) {
 		}
 		return nil, false
 	}
+	umParts := map[*ssa.Function]bool{}
+	if um0 := p.Method(tlsRel, "clientHelloMsg", "unmarshal"); um0 != nil {
+		for _, part := range c13UnmarshalParts(um0) {
+			umParts[part] = true
+		}
+	}
 	n, reads := 0, 0
 	for _, fn := range p.FuncsIn(tlsRel) {
 		if strings.HasSuffix(p.Fset.Position(fn.Pos()).Filename, "_test.go") {
 			continue
 		}
-		isUnmarshal := fn.Name() == "unmarshal" && RecvTypeName(fn) == "clientHelloMsg"
+		isUnmarshal := umParts[fn]
 		for _, b := range fn.Blocks {
 			for _, in := range b.Instrs {
 				switch x := in.(type) {
@@ -109,47 +115,50 @@ func c13ListsFromWire(c *Ctx) {
 	}
 	lists := map[string]bool{"cipherSuites": true, "supportedCurves": true, "supportedPoints": true, "extensions": true}
 	n := 0
-	for _, b := range um.Blocks {
-		for _, in := range b.Instrs {
-			st, ok := in.(*ssa.Store)
-			if !ok {
-				continue
-			}
-			fa, ok := st.Addr.(*ssa.FieldAddr)
-			if !ok || !lists[fieldNameOf(fa)] || c15Root(fa.X) != ssa.Value(um.Params[0]) {
-				continue
-			}
-			n++
-			key := fmt.Sprintf("unmarshal stores %s #%d", fieldNameOf(fa), n)
-			okV, why := false, ""
-			switch x := st.Val.(type) {
-			case *ssa.Const:
-				okV = x.IsNil()
-			case *ssa.MakeSlice:
-				okV = true
-			case *ssa.Call:
-				if bi, isB := x.Call.Value.(*ssa.Builtin); isB && bi.Name() == "append" {
+	umTop := um
+	for _, um := range c13UnmarshalParts(umTop) {
+		for _, b := range um.Blocks {
+			for _, in := range b.Instrs {
+				st, ok := in.(*ssa.Store)
+				if !ok {
+					continue
+				}
+				fa, ok := st.Addr.(*ssa.FieldAddr)
+				if !ok || !lists[fieldNameOf(fa)] || c15Root(fa.X) != ssa.Value(um.Params[0]) {
+					continue
+				}
+				n++
+				key := fmt.Sprintf("unmarshal stores %s #%d", fieldNameOf(fa), n)
+				okV, why := false, ""
+				switch x := st.Val.(type) {
+				case *ssa.Const:
+					okV = x.IsNil()
+				case *ssa.MakeSlice:
 					okV = true
-				} else {
-					okV = c13HelperList(x, um)
+				case *ssa.Call:
+					if bi, isB := x.Call.Value.(*ssa.Builtin); isB && bi.Name() == "append" {
+						okV = true
+					} else {
+						okV = c13HelperList(x, um)
+					}
+				case *ssa.Slice:
+					if a, isA := x.X.(*ssa.Alloc); isA {
+						why = "a list literal (" + a.Comment + ") with constant elements"
+					} else if bufBase(x) == ssa.Value(um.Params[1]) {
+						okV = true
+					}
+				case *ssa.Phi:
+					okV = true // merges of the above forms are checked at their own stores
+				case *ssa.Extract:
+					if hc, isC := x.Tuple.(*ssa.Call); isC && x.Index == 0 {
+						okV = c13HelperList(hc, um)
+					}
 				}
-			case *ssa.Slice:
-				if a, isA := x.X.(*ssa.Alloc); isA {
-					why = "a list literal (" + a.Comment + ") with constant elements"
-				} else if bufBase(x) == ssa.Value(um.Params[1]) {
-					okV = true
+				if !okV && why == "" {
+					why = RenderN(st.Val, 3)
 				}
-			case *ssa.Phi:
-				okV = true // merges of the above forms are checked at their own stores
-			case *ssa.Extract:
-				if hc, isC := x.Tuple.(*ssa.Call); isC && x.Index == 0 {
-					okV = c13HelperList(hc, um)
-				}
+				c.Check(okV, "ja3-lists-from-wire", key, p.InstrPos(st), "nil, make+fill, append, or a slice of the message bytes", "the parsed hello's "+fieldNameOf(fa)+" is set to "+why+" rather than to what the message carries: JA3 then prints values the client never sent (an absent or empty list becomes a non-empty one)")
 			}
-			if !okV && why == "" {
-				why = RenderN(st.Val, 3)
-			}
-			c.Check(okV, "ja3-lists-from-wire", key, p.InstrPos(st), "nil, make+fill, append, or a slice of the message bytes", "the parsed hello's "+fieldNameOf(fa)+" is set to "+why+" rather than to what the message carries: JA3 then prints values the client never sent (an absent or empty list becomes a non-empty one)")
 		}
 	}
 	c.Check(n >= 4, "ja3-lists-from-wire", "list stores in unmarshal found", p.Pos(um.Pos()), fmt.Sprint(n), "fewer stores to the JA3 list fields in unmarshal than known")
